@@ -321,14 +321,28 @@ func c11Run(c *Ctx) {
 		}
 	}
 	// hand-written: capacity-aliasing patterns and array literal freshness per evaluation
-	for _, src := range []string{
+	var selfAppend []string
+	for _, n := range []int{1, 2, 3, 4, 5, 6, 7, 8, 9} {
+		el := make([]string, n)
+		for i := range el {
+			el[i] = fmt.Sprint(i + 1)
+		}
+		lit := "[" + strings.Join(el, ", ") + "]"
+		// x = এড(x, …) while the old array is still held elsewhere: by an alias, a snapshot list, a caller
+		selfAppend = append(selfAppend,
+			Lines(Var("a", lit), Var("b", "a"), "a = "+BI("append", "a", "90")+";", "a[0] = 91;", Print("a"), Print("b"), "b = "+BI("append", "b", "92")+";", Print("a"), Print("b")),
+			Lines(Var("p", lit), Var("q", "p"), "p = "+BI("append", "p", "93")+";", "q = "+BI("append", "q", "94")+";", Print("p"), Print("q"), "p = "+BI("append", "p", "95", "96")+";", "q[0] = 97;", Print("p"), Print("q")),
+			Lines(Var("cur", lit), Var("snaps", "[]"), For(Var("i", "0"), "i < 3", "i = i + 1", "{ snaps = "+BI("append", "snaps", "cur")+"; cur = "+BI("append", "cur", "i + 80")+"; }"), "cur[0] = 98;", Print("snaps"), Print("cur")),
+			Lines(Fun("grow", "x", " x = "+BI("append", "x", "70")+"; x[0] = 71; "+Ret("x")+" "), Var("mine", lit), Var("got", "grow(mine)"), Print("mine"), Print("got"), Var("again", "grow(mine)"), Print("mine"), Print("got"), Print("again")))
+	}
+	for _, src := range append(selfAppend, []string{
 		Lines(Var("a", "[1, 2, 3]"), Var("b", BI("append", "a", "4")), Var("cc", BI("append", "a", "5")), Print("a"), Print("b"), Print("cc"), "b[0] = 9;", Print("a"), Print("b"), Print("cc")),
 		Lines(Var("a", "[1, 2, 3, 4]"), Var("b", BI("remove", "a", "0")), Print("a"), Print("b"), Var("d", BI("remove", "a", "3")), "d[0] = 7;", Print("a"), Print("d")),
 		Lines(Fun("mk", "", " "+Ret("[0, 0]")+" "), Var("p", "mk()"), Var("q", "mk()"), "p[0] = 1;", Print("p"), Print("q"), Print("mk()")),
 		Lines(Var("rows", "[]"), For(Var("i", "0"), "i < 3", "i = i + 1", "{ "+Var("row", "[i, i]")+" rows = "+BI("append", "rows", "row")+"; }"), "rows[0][0] = 99;", Print("rows")),
 		Lines(Var("a", "[1]"), Var("grown", "a"), For(Var("i", "0"), "i < 20", "i = i + 1", "{ grown = "+BI("append", "grown", "i")+"; }"), Print("a"), Print(BI("len", "grown")), Print(BI("len", "a")+" * 2 + 1"), Print("grown["+BI("len", "grown")+" - 1]")),
 		Lines(Var("a", "[[1, 2], [3]]"), Var("inner", "a[0]"), "inner[1] = 5;", Print("a"), "a[1] = inner;", "a[1][0] = 6;", Print("a"), Print("inner")),
-	} {
+	}...) {
 		if c.Mine() {
 			c11Judge(c, &Case{Gen: "handwritten", Src: src, X: map[string]string{"ops": "handwritten"}})
 		}
